@@ -42,6 +42,7 @@ def body(ctx, parts, check):
 
 
 def run(ctx):
+    run_fanout(ctx)
     hyp_run(ctx, 'c01.sync', scenario.sync_case(), body(ctx, PARTS, 'c01.sync'),
             ctx.pick(120, 10000), frac=0.7)
     # large stratum: blocks of up to 300 extra transactions, thousands of UTXOs
@@ -49,6 +50,43 @@ def run(ctx):
             body(ctx, PARTS, 'c01.sync'), ctx.pick(6, 500))
 
 
+FANOUTS = [255, 256, 257, 65_534, 65_535, 65_536, 65_540, 66_000]
+
+
+def fanout_case(n_out, variant):
+    '''A short chain in which one transaction has n_out outputs (indices beyond one / two bytes);
+    a later block spends the last few of them.'''
+    blk = {'cb': [[0, 0]], 'nonce': 0, 'coll': None, 'txs': []}
+    blocks = [dict(blk, nonce=i) for i in range(3)]
+    blocks.append(dict(blk, nonce=3, txs=[{'ins': [0], 'outs': [[1, 2]], 'fanout': n_out - 1}]))
+    # inputs are drawn from the end of the spendable list: the highest output indices
+    blocks.append(dict(blk, nonce=4, txs=[{'ins': [-2, -3], 'outs': [[2, 3]]},
+                                          {'ins': [-40], 'outs': [[0, 1]]}]))
+    blocks.append(dict(blk, nonce=5))
+    flush = [[0, 0, 0, 2, 0, 0], [0, 0, 0, 0, 0, 0], [0, 0, 0, 1, 2, 0]][variant % 3]
+    return {'activation': 0, 'prefetch': 4, 'reorg_limit': 5, 'blocks': blocks, 'flush': flush,
+            'reveals': [], 'lat': [], 'chunk': None}
+
+
+def run_fanout(ctx):
+    '''Deterministic: each shard takes some of the fan-out sizes (the two-byte boundary costs a few
+    seconds per case).'''
+    sizes = FANOUTS if not ctx.quick else FANOUTS[:3] + FANOUTS[4:7]
+    run = body(ctx, PARTS, 'c01.fanout')
+    for k, n_out in enumerate(sizes):
+        if k % ctx.nshards != ctx.shard:
+            continue
+        if ctx.over_budget():
+            return
+        case = fanout_case(n_out, k)
+        try:
+            run(case)
+        except Violation as v:
+            ctx.violations.append({'check': 'c01.fanout', 'case': case, 'message':
+                                   f'transaction with {n_out} outputs: ' + v.message, 'sig': v.sig})
+
+
 def replay(ctx, check, case):
-    msg, sig, _ = scenario.run_sync_case(ctx.scratch, case, PARTS)
+    parts = PARTS if check == 'c01.fanout' else PARTS
+    msg, sig, _ = scenario.run_sync_case(ctx.scratch, case, parts)
     return (msg, sig) if msg else None
